@@ -487,6 +487,14 @@ class C18(Prop):
                         props['children'] = True
                     elif z < 0.5:
                         props['recursive'] = True
+                if rng.random() < 0.15:
+                    # a child (or a worker) disappears inside the request
+                    d = {'op': 'die', 'w': w, 'j': rng.randrange(3),
+                         'how': 'kill',
+                         'place': {'calls': rng.randrange(1, 10)}}
+                    if rng.random() < 0.75:
+                        d['child'] = rng.randrange(2)
+                    ops.append(d)
                 ops.append({'op': 'req', 'cmd': 'signal', 'w': w,
                             'props': props, 'waiting': False, 'place': 'now',
                             'sync': True})
